@@ -31,6 +31,18 @@ func xfReadAll(sink []byte) (data []byte, end int64, errOpen, errRead error, pan
 	}
 	data, errRead = ioutil.ReadAll(xr)
 	end, _ = xr.Seek(0, io.SeekEnd)
+	// the same through io.Copy (which uses an io.WriterTo of the Reader if it has one), after a short Read
+	if errRead == nil {
+		if xr2, err := xflate.NewReader(bytes.NewReader(sink), nil); err == nil {
+			head := make([]byte, 3)
+			n, _ := io.ReadFull(xr2, head)
+			var rest bytes.Buffer
+			_, cerr := io.Copy(&rest, io.Reader(xr2))
+			if cerr != nil || !bytes.Equal(append(head[:n], rest.Bytes()...), data) {
+				return data, end, nil, fmt.Errorf("io.Copy after Read(3) delivers %d bytes (err=%v), ReadAll %d", n+rest.Len(), cerr, len(data)), ""
+			}
+		}
+	}
 	return
 }
 
@@ -144,6 +156,22 @@ func runC05(r *vhlib.Run, which string) {
 		if res.NewErr == "nil" {
 			r.Violate("invalid-config-accepted", fmt.Sprint(cfg), map[string]interface{}{"cfg": fmt.Sprint(cfg)})
 		}
+	}
+	// long runs of blocks that produce no output: an index of several hundred records (many meta blocks in a
+	// row) and dozens of flushes with nothing written in between - every DEFLATE decoder must read through them
+	{
+		var many []xwOp
+		many = append(many, xwOp{Kind: 'w', Data: vhlib.RandBytes(rng, 8*600)}, xwOp{Kind: 'c'})
+		c05History(r, m, which, xwCfg{Level: 6, ChunkSize: 8, Index: -1}, many, "long-empty-runs")
+		var fl []xwOp
+		for k := 0; k < 2; k++ {
+			fl = append(fl, xwOp{Kind: 'w', Data: vhlib.RandBytes(rng, 20)})
+			for j := 0; j < 40; j++ {
+				fl = append(fl, xwOp{Kind: 'f', Mode: j % 2})
+			}
+		}
+		fl = append(fl, xwOp{Kind: 'c'})
+		c05History(r, m, which, xwCfg{Level: 6, ChunkSize: 64, Index: -1}, fl, "long-empty-runs")
 	}
 	// exhaustive short histories over the boundary alphabet
 	depth := 3
